@@ -394,7 +394,7 @@ func RunCase(t *testing.T, spec CaseSpec) *CaseResult {
 	case "C05":
 		add(checkC05(r))
 		for _, a := range r.Results {
-			if len(a.Causes) > 0 && a.Causes[0] == "cancel" && a.CauseSeq > 0 && len(a.Calls) > 0 {
+			if len(a.Causes) > 0 && a.Causes[0] == "cancel" && a.CauseSeqSet && len(a.Calls) > 0 {
 				late, before := 0, 0
 				for _, c := range a.Calls {
 					if c.Seq > a.CauseSeq {
